@@ -192,31 +192,41 @@ def one_rotation(ck, codes, seeds, wcs, rot, W, first_vec, out):
                 rejected.append((r_, bad[i + 1]))
             else:
                 accepted.append(r_)
-    # accepted behaviours whose outcome is not the history's (the scripted poll was not reached before the deadline under load):
-    # replay those histories again with a longer window
-    again = [r_ for r_ in accepted if outcome_differs(r_)]
-    out["rerun_for_timing"] = out.get("rerun_for_timing", 0) + len(again)
-    if again:
-        if len(again) > len(vs) // 8:
-            raise Infra("%d accepted runs do not show the outcome their history requires (machine too loaded?)" % len(again))
-        v2 = [dict(vs[r_["vec"] - first_vec], W=3 * W) for r_ in again]
-        runs2 = replay_vectors(ck, v2, "vectors_again_rot%d" % rot, 48)
-        rej2, notes2 = quiet_judge(ck, runs2, "runs_again_rot%d" % rot, codes)
+    # Time-dependent judgements are made twice before they count (DESIGN section 6). Replayed again with a 3x window, a few at a time:
+    #  - accepted behaviours whose outcome is not the history's (the scripted poll was not reached before the deadline under load)
+    #  - runs rejected only for a clock reading (an error slightly early / very late on an oversubscribed machine)
+    CLOCK = ("Return:long-after-deadline", "Return:error-before-deadline")
+    for attempt, (mult, par) in enumerate(((3, 48), (6, 16))):
+        again = [r_ for r_ in accepted if outcome_differs(r_)]
+        suspects = [r_ for r_, why in rejected if why in CLOCK]
+        if not again and not suspects:
+            break
+        out["rerun_for_timing"] = out.get("rerun_for_timing", 0) + len(again) + len(suspects)
+        if len(again) + len(suspects) > len(vs) // 8:
+            raise Infra("%d runs depend on clock readings that differ from what their history requires (machine too loaded?)" % (len(again) + len(suspects)))
+        gone = {r_["vec"] for r_ in again + suspects}
+        ck.traces_ok -= len(again)
+        accepted = [r_ for r_ in accepted if r_["vec"] not in gone]
+        rejected = [(r_, why) for r_, why in rejected if r_["vec"] not in gone]
+        v2 = [dict(vs[r_["vec"] - first_vec], W=mult * W) for r_ in again + suspects]
+        runs2 = replay_vectors(ck, v2, "vectors_again%d_rot%d" % (attempt, rot), par)
+        rej2, notes2 = quiet_judge(ck, runs2, "runs_again%d_rot%d" % (attempt, rot), codes)
         bad2 = {r_["line"]: first_note(notes2, r_["line"], "run") for r_ in rej2}
         for i, r_ in enumerate(runs2):
             if i + 1 in bad2:
                 rejected.append((r_, bad2[i + 1]))
-                ck.traces_ok -= 1
-            elif outcome_differs(r_):
-                raise Infra("vector %d: the run is a legal behaviour but twice not the outcome the history requires: %s" % (r_["vec"], json.dumps(slim_run(r_))[:1500]))
-        gone = {r_["vec"] for r_ in again}
-        accepted = [r_ for r_ in accepted if r_["vec"] not in gone]
+            else:
+                accepted.append(r_)
+                ck.traces_ok += 1
+    for r_ in accepted:
+        if outcome_differs(r_):
+            raise Infra("vector %d: the run is a legal behaviour but three times not the outcome the history requires: %s" % (r_["vec"], json.dumps(slim_run(r_))[:1500]))
     out.setdefault("runs", runs)          # rotation 0, for the canaries
     return vs, accepted, rejected
 
 
 def send_part(ck, codes, out):
-    rots = [0, 1, 2, 3, 4] if ck.thorough else [0]
+    rots = [0, 1, 2] if ck.thorough else [0]
     W = window_ms(ck)
     seeds = ["%064x" % ck.rng.getrandbits(256) for _ in range(4 if ck.thorough else 2)]
     wcs = [0, -1, 1, -128, 127] if ck.thorough else [0, -1]
@@ -578,7 +588,7 @@ def run(ck):
                        "v5r1: sub-wallet id = the 15-bit counter of the client context id (ids >= 2^15 outside the domain); v1/v2 have no sub-wallet id, non-v5 no network id",
                        "frozen account: seqno/init unconstrained; confirmation on a highload wallet (no seqno) may be refused after sending",
                        "time: deadline judged with a slack of one poll interval (window/10); an error later than 2 windows + 2 s is rejected; scripted polls "
-                       "not reached before the deadline are replayed again with a 3x window; confirmation violations are reproduced with a 3x window before being reported",
+                       "not reached before the deadline and runs rejected only for a clock reading are replayed again with a 3x, then 6x window; confirmation violations are reproduced with a 3x window before being reported",
                        "mnemonic -> key derivation (PBKDF2) is not part of the statement: DefaultWalletFromSeed is judged against the key SeedToPrivateKey derives",
                        "scripted chain answers errors as (0, error)"]
     ck.build_vh()
